@@ -22,7 +22,8 @@ EVENTS = ("connect", "request", "partial", "finish", "tick")
 
 def BOUNDS(tier):
     return ("event histories of length <= %d over %r; symbolic channel_timeout, cleanup_interval, clock steps; connection_limit in {3,4}; channel_request_lookahead in {0,1}; "
-            "schedules without pre-emption (the property is about histories; interleavings are C04/C05/C11)." % (4 if tier == "quick" else 5, EVENTS))
+            "schedules without pre-emption (the property is about histories; interleavings are C04/C05/C11).  The history connect, tick, request, finish is %s."
+            % (4 if tier == "quick" else 5, EVENTS, "left to the thorough tier (cost)" if tier == "quick" else "explored with length 4 only (cost)"))
 
 
 def jobs(tier):
@@ -39,6 +40,9 @@ def jobs(tier):
     heavy = lambda j: j.get("prefix", [])[1:] == ["tick", "request"]
     js = common.shard(js, "lookahead", 2, heavy)
     js = common.shard(js, "ev0", len(EVENTS), heavy)
+    # connect, tick, request, finish: ~2500 schedules x ~75 solver queries each (5 min per job): thorough tier only, and not extended by a fifth event
+    fin = lambda j: heavy(j) and j.get("force", {}).get("ev0") == EVENTS.index("finish")
+    js = [dict(j, n=4) if fin(j) else j for j in js if not (tier == "quick" and fin(j))]
     return js
 
 
